@@ -102,7 +102,16 @@ TraceSetScores ==
         /\ Report(e, Failing({<<"C07.raised", e.exc = "">>,
                               <<"C07.state_after_rebinding_scores", e.exc # "" \/ ObjOfRec(e.post) = o>>}))
 
-Next == TraceNew \/ TraceAUC \/ TraceAUCHuge \/ TraceSetConfig \/ TraceSetScores
+(* history: copy.copy / copy.deepcopy / a pickle round trip of a live object gives an equal object *)
+TraceCopy ==
+  /\ IsEvent("Copy")
+  /\ LET e == Log[l]
+         o == store[e.h]
+     IN /\ store' = (e.h2 :> o) @@ store
+        /\ Report(e, Failing({<<"C07.raised", e.exc = "">>,
+                              <<"C07.copy_equals_source", e.exc # "" \/ ObjOfRec(e.post) = o>>}))
+
+Next == TraceNew \/ TraceAUC \/ TraceAUCHuge \/ TraceSetConfig \/ TraceSetScores \/ TraceCopy
 Spec == Init /\ [][Next]_vars
 AllConsumed == TLCGet("stats").diameter - 1 = Len(Log)
 =============================================================================
